@@ -201,7 +201,10 @@ def run(ctx):
     hf = prog.method('Stream', 'Hf', rel=ST)
     ps, _ = run_paths(hf.node)
     rn = ps[0].ret_node.value if ps[0].ret_node is not None else None
-    if rn is not None and src(rn) in ('(self.chemicals.Hf * self.mol).sum()', '(self.mol * self.chemicals.Hf).sum()'):
+    if rn is not None:
+        from ..resolve import resolved, path_defs
+        rn = resolved(rn, path_defs(ps[0]))
+    if len(ps) == 1 and rn is not None and src(rn) in ('(self.chemicals.Hf * self.mol).sum()', '(self.mol * self.chemicals.Hf).sum()'):
         d4.ok('Stream.Hf', 'Hf = sum(chemicals.Hf * mol)', hf)
     else:
         d4.fail('Stream.Hf', 'form', 'Hf is not sum(chemicals.Hf*mol)', hf, hf.node)
